@@ -1143,6 +1143,9 @@ impl<RW: QueueRW<T>, T> Drop for MultiQueue<RW, T> {
                 }
             }
         }
+        // the ring itself
+        alloc::deallocate(self.data, self.capacity as usize);
+        alloc::deallocate(self.refs, self.capacity as usize);
     }
 }
 
